@@ -11,6 +11,7 @@ import GuppyVerif.Util.Sexp
   (next <lin> (<cell>…) i)      -> ArrayIter.__next__
   (drain <lin> (<cell>…) i fuel)
   (comp n (e…))                 -> the comprehension loop on the generated elements
+  (emit comploop n) | (comploop n (<cell>…) fuel)  -> the whole comprehension loop structure / its run (element expr = +1000)
   <lin> = 0 | 1
  replies: `ok …` | `panic <name>` | `bad-request`. -/
 open GuppyVerif GuppyVerif.ArraySem
@@ -47,6 +48,9 @@ def showProg (p : Prog) : String :=
     let (n, ps) := showOp i.op
     s!"({encodeAtom n} ({" ".intercalate (ps.map encodeAtom)}) ({" ".intercalate (i.args.map toString)}) {i.nout})"
   s!"(prog {p.nin} ({" ".intercalate items}) ({" ".intercalate (p.outs.map toString)}))"
+
+def showCompLoop (L : CompLoop) : String :=
+  s!"(comploop {L.initLen} {L.initCount} {L.arrPort} {L.countPort} ({" ".intercalate (L.nonePass.map toString)}) {showProg L.body} {L.breakTag} {L.contTag} {L.resultPort})"
 
 def parseOp (name : String) (ps : List String) : Op :=
   match name, ps with
@@ -135,6 +139,12 @@ def handleSexp : Sexp → Option String
   | .list [.atom "emit", .atom "discard", l] => do some (showProg (emitDiscardAllUsed (← lin? l)))
   | .list [.atom "emit", .atom "copy"] => some (showProg emitCopy)
   | .list [.atom "emit", .atom "compbody"] => some (showProg emitCompBody)
+  | .list [.atom "emit", .atom "comploop", .atom n] => do some (showCompLoop (emitCompLoop (← n.toNat?)))
+  | .list [.atom "comploop", .atom n, .list cs, .atom fuel] => do
+    let r := runComp (emitCompLoop (← n.toNat?)) (· + 1000) (← fuel.toNat?) (← parseCells cs)
+    some (reply (fun
+      | none => "fuel"
+      | some v => showVal v) r)
   | .list [.atom "run", p, .list vs] => do
     let p ← parseProg p
     let vs ← vs.mapM parseVal
